@@ -35,7 +35,7 @@ import (
 const shimPath = "github.com/zeromicro/go-zero/verifshim/vsched"
 
 var selMap = map[string]map[string]string{
-	"sync":        {"Mutex": "Mutex", "RWMutex": "RWMutex", "WaitGroup": "WaitGroup", "Once": "Once", "Cond": "Cond", "NewCond": "NewCond", "Pool": "Pool"},
+	"sync":        {"Mutex": "Mutex", "RWMutex": "RWMutex", "WaitGroup": "WaitGroup", "Once": "Once", "Cond": "Cond", "NewCond": "NewCond", "Pool": "Pool", "Map": "Map"},
 	"sync/atomic": {"*": "Atomic"}, // atomic.X -> vsched.AtomicX
 	"time": {"Now": "TimeNow", "Since": "TimeSince", "Until": "TimeUntil", "Sleep": "TimeSleep", "After": "TimeAfter",
 		"AfterFunc": "TimeAfterFunc", "Tick": "TimeTick", "NewTimer": "NewTimer", "NewTicker": "NewTicker", "Timer": "Timer", "Ticker": "Ticker"},
@@ -194,6 +194,9 @@ func (r *rewriter) collect() {
 				fn := "ChanLen"
 				if r.builtin(x, "cap") {
 					fn = "ChanCap"
+				}
+				if ct, ok := r.info.TypeOf(x.Args[0]).Underlying().(*types.Chan); ok && ct.Dir() == types.SendOnly {
+					fn += "S"
 				}
 				r.add(x, func() string { return "vsched." + fn + "(" + r.node(x.Args[0]) + ")" })
 			default:
